@@ -591,7 +591,9 @@ func (c *methodsCase) Shrinks() []Case {
 	}
 	return out
 }
-func (c *methodsCase) Key() string { return fmt.Sprintf("generic=%v ptr=%v query=%v", c.Generic, c.Ms, c.Query) }
+func (c *methodsCase) Key() string {
+	return fmt.Sprintf("generic=%v ptr=%v query=%v", c.Generic, c.Ms, c.Query)
+}
 func (c *methodsCase) Classes() []string {
 	return []string{fmt.Sprintf("generic:%v", c.Generic), fmt.Sprintf("methods:%d", len(c.Ms))}
 }
@@ -895,7 +897,9 @@ func (c *dagCase) Shrinks() []Case {
 	}
 	return out
 }
-func (c *dagCase) Key() string { return fmt.Sprintf("n=%d edges=%v roots=%v std=%v", c.N, c.Edges, c.Roots, c.Std) }
+func (c *dagCase) Key() string {
+	return fmt.Sprintf("n=%d edges=%v roots=%v std=%v", c.N, c.Edges, c.Roots, c.Std)
+}
 func (c *dagCase) Classes() []string {
 	e := 0
 	for _, x := range c.Edges {
